@@ -200,6 +200,8 @@ type usingCheck struct {
 	toBeEmitted bool
 	// itea is the declaration of the 'itea' identifier.
 	itea *ast.Var
+	// path is the path of the file of the 'using' statement.
+	path string
 	// pos is the position of the 'using' statement.
 	pos *ast.Position
 	// typ is type of the 'itea' predeclared identifier, as denoted in the
